@@ -711,8 +711,10 @@ func (w *c14World) topoEntry(l []int, order gmsl.TopologicalOrder) [2][]int {
 		return [2][]int{{}, {}}
 	}
 	back := map[gmsl.PDU]int{}
+	seen := map[string]bool{}
 	for _, i := range l {
-		if i >= 0 && i < len(w.parsed) && w.parsed[i].class == 0 {
+		if i >= 0 && i < len(w.parsed) && w.parsed[i].class == 0 && !seen[w.parsed[i].pdu.EventID()] {
+			seen[w.parsed[i].pdu.EventID()] = true
 			// a fresh object per occurrence, as LoadAndVerify has
 			ev, err := impl.NewEventFromUntrustedJSON([]byte(w.spec.Texts[i]))
 			if err != nil {
